@@ -4,7 +4,7 @@ HEADER = """C04 — Breadth-first search finds a shortest path iff one exists.
    arbitrary pure filter; PureCb covers Method::Empty, ForEach(recorder) and Filter(pure f).
    The generic theorems are stated for every worklist kind k <> KDfs (bfs and both pfs modes); the queue
    hypothesis of coq/proofs/Worklist.v is discharged by StdHeap.stdheap_qspec in SearchGlue.v."""
-REQUIRES = ["From Gdsl.Model Require Import Spec Callback.", "From Gdsl.Proofs Require Import Worklist Bfs SearchGlue."]
+REQUIRES = ["From Gdsl.Model Require Import Spec Callback PathApi.", "From Gdsl.Proofs Require Import Worklist Bfs SearchGlue PathApiProof."]
 PINS = [
  ("c04_path_sound", "wlq_path_sound", "a returned path starts at the root, ends at the node carrying the target key, is made of accepted stored edges (with their stored values) joined end to start"),
  ("c04_path_complete", "wlq_path_complete", "None only if no node with the target key is reachable through accepted edges"),
@@ -12,6 +12,9 @@ PINS = [
  ("c04_search_agrees", "wlq_find_agrees", "search() returns the target node in exactly the cases in which search_path() returns a path"),
  ("c04_terminates", "wlq_terminates", "fuel_bound suffices: the out-of-fuel outcome cannot occur"),
  ("c04_no_panic", "wlq_no_panic", "backtracking never hits the unwrap() on an empty tree"),
+ ("c04_path_iter_nodes", "p_iter_nodes_spec", "Path::iter_nodes / to_vec_nodes (a position-walking iterator) yields the source of the first edge followed by every edge's target"),
+ ("c04_path_len", "p_len_counts_nodes", "Path::len is the number of nodes of a non-empty path"),
+ ("c04_path_last_node", "p_last_node_is_end", "Path::last_node is the target of the last edge (what pfs search() returns)"),
 ]
 EXTRA = """
 Example c04_nonvacuous :
